@@ -591,6 +591,35 @@ fn lexical_rules(cx: &mut Ctx, up: &Src, w: &Walker) {
             sm::flat_tokens(quote::ToTokens::to_token_stream(i), &mut toks);
         }
     }
+    // doc comments are `#[doc = "text"]` attributes in the token stream: their text is not written by the unparser
+    {
+        let mut kept = Vec::with_capacity(toks.len());
+        let mut k = 0;
+        while k < toks.len() {
+            if toks[k] == "#" && toks.get(k + 1).map_or(false, |t| t == "[") && toks.get(k + 2).map_or(false, |t| t == "doc") {
+                let mut depth = 0i32;
+                k += 1;
+                while k < toks.len() {
+                    match toks[k].as_str() {
+                        "[" => depth += 1,
+                        "]" => {
+                            depth -= 1;
+                            if depth == 0 {
+                                k += 1;
+                                break;
+                            }
+                        }
+                        _ => {}
+                    }
+                    k += 1;
+                }
+                continue;
+            }
+            kept.push(toks[k].clone());
+            k += 1;
+        }
+        toks = kept;
+    }
     let mut lits: BTreeSet<String> = BTreeSet::new();
     for t in &toks {
         if t.starts_with('"') && t.ends_with('"') && t.len() >= 2 {
